@@ -678,7 +678,52 @@ type cellRun struct {
 	crash string
 	d     time.Duration
 	base  string
+
+	retryAfter string
 }
+
+// retryAfterVariant says which Retry-After header a throttling answer (429, 503, 509) of the cell carries:
+// 0 none, 1 "0", 2 a small number of seconds (1..10), 3 a larger number, 4 an HTTP date. A function of the
+// cell's coordinates: every (call, form, status) meets all five across its shapes, limiter modes and bases.
+func retryAfterVariant(c c20cell) int {
+	switch apiStatuses[c.st] {
+	case 429, 503, 509:
+		return (c.cv + 2*c.lim + c.base) % 5
+	}
+	return 0
+}
+
+// cellHeaders are the response headers of a cell beyond Content-Type: what real servers and proxies add
+// (Date, Server, Content-Length, Cache-Control, a Content-Type spelling), none of which changes what the
+// statement says about the call, and Retry-After on throttling answers.
+func cellHeaders(c c20cell, idx int, a *apiArgs) (h [][2]string, retryAfter string) {
+	switch idx % 4 {
+	case 1:
+		h = append(h, [2]string{"Date", "Sat, 03 Oct 2026 10:00:00 GMT"}, [2]string{"Server", "openstreetmap-cgimap"})
+	case 2:
+		h = append(h, [2]string{"Content-Type", "text/xml"}, [2]string{"Cache-Control", "private, max-age=0, must-revalidate"})
+	case 3:
+		h = append(h, [2]string{"Content-Type", "application/xml"}, [2]string{"Date", "Sat, 03 Oct 2026 10:00:00 GMT"}, [2]string{"Vary", "Accept-Encoding"})
+	}
+	switch retryAfterVariant(c) {
+	case 1:
+		retryAfter = "0"
+	case 2:
+		retryAfter = strconv.Itoa(1 + int(kit.Mix(a.salt+uint64(idx))%10))
+	case 3:
+		retryAfter = []string{"11", "120", "3600"}[idx/3%3]
+	case 4:
+		retryAfter = "Sat, 03 Oct 2026 10:05:00 GMT"
+	}
+	if retryAfter != "" {
+		h = append(h, [2]string{"Retry-After", retryAfter})
+	}
+	return h, retryAfter
+}
+
+// inBubble: cells that involve the clock run on the fake clock: a limiter, or a Retry-After answer (a client
+// that chose to sit the delay out must not make the check sleep for real).
+func inBubble(c c20cell) bool { return c.lim != limNone || retryAfterVariant(c) != 0 }
 
 // execCell performs the call of one table cell. For limiter modes it must run inside a bubble.
 func execCell(root context.Context, idx int, args [][]*apiArgs) *cellRun {
@@ -690,10 +735,16 @@ func execCell(root context.Context, idx int, args [][]*apiArgs) *cellRun {
 	st := apiStatuses[c.st]
 	body, want, own := buildBody(ep, a, c.cv)
 	cr.want, cr.own = want, own
+	fullBody := body
 	if st != 200 && c.cv == 0 {
 		body = errorBodies[idx/7%len(errorBodies)] // an error answer is normally plain text; the other variants keep a full document to expose partial data
 	}
 	cr.srv = &apiServer{status: st, body: body, clock: clock}
+	cr.srv.headers, cr.retryAfter = cellHeaders(c, idx, a)
+	if cr.retryAfter != "" {
+		// by the time a client could come back the throttle is over: a second request would get the document
+		cr.srv.nextStatus, cr.srv.nextBody = 200, fullBody
+	}
 	client := &http.Client{Transport: cr.srv}
 	if c.base == 1 {
 		cr.base = customBaseOf(c)
@@ -810,6 +861,9 @@ func judgeCell(o *kit.Outcome, cr *cellRun) (violated bool) {
 	st := apiStatuses[c.st]
 	form := formName[c.form]
 	where := fmt.Sprintf("[[cell=%d]] %s (%s), status %d, response with %s elements, %s, base URL %q, args %v", cr.idx, ep.name, form, st, countVariants[c.cv].name, limName[c.lim], cr.base, a.describe(ep))
+	if cr.retryAfter != "" {
+		where += fmt.Sprintf(", answer carries Retry-After: %s", cr.retryAfter)
+	}
 	viol := func(class, f string, x ...interface{}) {
 		violated = true
 		for _, v := range o.Violations {
@@ -882,7 +936,11 @@ func judgeCell(o *kit.Outcome, cr *cellRun) (violated bool) {
 		for _, r := range reqs {
 			u += " " + r.url
 		}
-		viol("C20/request-count/"+ep.name, "%d requests, want exactly one:%s (err=%v)", len(reqs), u, res.err)
+		waits := 0
+		if cr.lim != nil {
+			waits = cr.lim.calls
+		}
+		viol("C20/request-count/"+ep.name, "%d requests, want exactly one:%s (limiter waits: %d, err=%v, value returned: %v)", len(reqs), u, waits, res.err, res.nonNil)
 		return
 	}
 	rq := reqs[0]
@@ -894,6 +952,12 @@ func judgeCell(o *kit.Outcome, cr *cellRun) (violated bool) {
 	}
 	if strings.Contains(cr.base, "%") {
 		o.Probe("base-url-with-percent-escapes")
+	}
+	if cr.retryAfter != "" {
+		o.Probe("retry-after-header-served")
+		if len(cr.retryAfter) <= 2 {
+			o.Probe("retry-after-of-at-most-10-seconds-served")
+		}
 	}
 	if c.form == formNilClient {
 		o.Probe("request-through-inherited-default-client")
@@ -1102,7 +1166,7 @@ func runC20(t *testing.T, r *kit.Run) {
 	// cells without a limiter need no clock
 	var timed []int
 	for _, i := range cells {
-		if cellOf(i).lim == limNone {
+		if !inBubble(cellOf(i)) {
 			finish(execCell(context.Background(), i, args))
 		} else {
 			timed = append(timed, i)
